@@ -213,6 +213,23 @@ def task_application(ctx, cfg):
     parts = jnp.stack([filtering.exponential_filter(grid, float(avec[k, 0, 0]), 2, 0.1)(x[k]) for k in range(K)])
     return whole, parts
   prove_close(ctx, 'array_valued_strength_acts_slice_by_slice', slicewise, [x], sp, config=conf)
+  # array strengths with boundary entries: an exact zero (that level is not filtered) next to positive ones, for the plain and the
+  # step filters (tau = inf gives strength dt / tau = 0), exponential and diffusion
+  dt = 0.1
+  cases = {
+      'exponential(a=[0,2,.5])': (lambda a: filtering.exponential_filter(grid, a, 3, 0.2), np.array([0.0, 2.0, 0.5])),
+      'exponential(a=[4,0,0])': (lambda a: filtering.exponential_filter(grid, a, 1, 0.0), np.array([4.0, 0.0, 0.0])),
+      'diffusion(s=[0,.05,.3])': (lambda a: filtering.horizontal_diffusion_filter(grid, a, 2), np.array([0.0, 0.05, 0.3])),
+      'exponential_step(tau=[.004,inf,.02])': (lambda a: (lambda u: ti.exponential_step_filter(grid, dt, a, 2, 0.1)(u, u)), np.array([0.004, np.inf, 0.02])),
+      'exponential_leapfrog_step(tau=[inf,.05,.5])': (lambda a: (lambda u: ti.exponential_leapfrog_step_filter(grid, dt, a, 4, 0.0)((u, u), (u, u))[1]), np.array([np.inf, 0.05, 0.5])),
+      'diffusion_step(tau=[.3,inf,2])': (lambda a: (lambda u: ti.horizontal_diffusion_step_filter(grid, dt, a, 1)(u, u)), np.array([0.3, np.inf, 2.0])),
+  }
+  for cname, (mk, vec) in cases.items():
+    def slicewise2(x, mk=mk, vec=vec):
+      whole = mk(vec[:, None, None])(x)
+      parts = jnp.stack([mk(float(vec[k]))(x[k]) for k in range(K)])
+      return whole, parts
+    prove_close(ctx, 'array_valued_strength_acts_slice_by_slice', slicewise2, [x], sp, config=dict(conf, strengths=cname))
   # Robert-Asselin: newest level untouched (same object), linear-in-time sequences unchanged for every r
   ra = ti.robert_asselin_leapfrog_filter(0.05)
   p, c, f_ = jnp.ones(ms), 2 * jnp.ones(ms), 3 * jnp.ones(ms)
